@@ -22,7 +22,7 @@ import random
 import shutil
 from collections import Counter
 
-from . import core
+from . import c19_casestats, core
 
 SPEC = core.SPEC / "rank"
 
@@ -601,8 +601,8 @@ def main(tier: str, seed: int) -> int:
         realise(i)  # before forking
     groups, lrt, ranks, lrts, descs = _tlc(tier, seed, v, nobs, nind)
     rng = random.Random(seed * 77 + 1)
-    budget = {"quick": 10000, "thorough": 400000}[tier]
-    heavy_budget = {"quick": 1200, "thorough": 6000}[tier]  # BIC mixed re-derives the parameter categories for every model
+    budget = {"quick": 8000, "thorough": 400000}[tier]
+    heavy_budget = {"quick": 900, "thorough": 6000}[tier]  # BIC mixed re-derives the parameter categories for every model
     rng.shuffle(ranks)
     work, nheavy = [], 0
     for case in ranks:
@@ -638,6 +638,7 @@ def main(tier: str, seed: int) -> int:
             stat[f"criteria_{status}"] += 1
             if status == "violation":
                 v.violation(rec, what)
+    c19_casestats.run(tier, seed, v)
     s0 = work[len(work) // 2]
     c0 = s0[0]["cfgs"][s0[1]["cfg"] - 1]
     v.add_coverage(
